@@ -89,3 +89,52 @@ Proof.
   intros H. apply (kfd_feasible_iff_cons (exI 1) exRank 3 ex_wf eq_refl ex_rank ex_rank_le (ex_cons_ok 1)) in H.
   exact (ex_no_decomposition_1 H).
 Qed.
+
+(* ---- the same instance as a path-cover instance ---- *)
+From FP Require Import PathCoverComplete.
+
+Example ex_cover_2 : path_cover (exB 2) [] exP /\ constraints_covered (exB 2) exP.
+Proof.
+  split; [split|exact (proj2 ex_decomposition)].
+  - exact (proj1 (proj1 ex_decomposition)).
+  - intros e He _. cbn in He.
+    destruct He as [<-|[<-|[<-|[<-|[]]]]];
+      [exists 0%N|exists 1%N|exists 0%N|exists 1%N]; (split; [cbn; auto|reflexivity]).
+Qed.
+
+Example ex_no_cover_1 : ~ exists P, path_cover (exB 1) [] P /\ constraints_covered (exB 1) P.
+Proof.
+  intros (P & (HP & Hcov) & _).
+  assert (L1 : forall i, In i (layers 1) -> i = 0%N) by (intros i Hi; cbn in Hi; intuition).
+  destruct (Hcov (0, 1)%N) as (i1 & Hi1 & M1); [cbn; auto|reflexivity|].
+  destruct (Hcov (0, 2)%N) as (i2 & Hi2 & M2); [cbn; auto|reflexivity|].
+  cbn [p_k exB] in Hi1, Hi2. rewrite (L1 i1 Hi1) in M1. rewrite (L1 i2 Hi2) in M2.
+  destruct (HP 0%N) as (_ & _ & ND & _); [cbn; auto|].
+  apply mem_edge_In in M1, M2.
+  (* two different edges leaving node 0 on a duplicate-free node list *)
+  clear - ND M1 M2. set (l := P 0%N) in *. clearbody l.
+  induction l as [|a r IH]; [destruct M1|].
+  destruct r as [|b r']; [destruct M1|].
+  change (pairs (a :: b :: r')) with ((a, b) :: pairs (b :: r')) in M1, M2.
+  inversion ND as [|? ? Hni ND']; subst.
+  destruct M1 as [E1|M1]; destruct M2 as [E2|M2].
+  - congruence.
+  - injection E1 as -> ->. apply in_pairs_r in M2. tauto.
+  - injection E2 as -> ->. apply in_pairs_r in M1. tauto.
+  - exact (IH M1 M2 ND').
+Qed.
+
+Lemma exB_cons_ok k : forall c e, In c (p_cons (exB k)) -> In e c -> In e (g_edges (p_graph (exB k))) /\ (0 <= elen (exB k) e)%Q.
+Proof. exact (ex_cons_ok k). Qed.
+
+Example ex_kpc_feasible_2 : exists a, sat a (encode_kpc (exB 2) []).
+Proof.
+  apply (kpc_feasible_iff (exB 2) [] exRank 3 ex_wf eq_refl ex_rank ex_rank_le (exB_cons_ok 2)).
+  exists exP. exact ex_cover_2.
+Qed.
+
+Example ex_kpc_infeasible_1 : ~ exists a, sat a (encode_kpc (exB 1) []).
+Proof.
+  intros H. apply (kpc_feasible_iff (exB 1) [] exRank 3 ex_wf eq_refl ex_rank ex_rank_le (exB_cons_ok 1)) in H.
+  exact (ex_no_cover_1 H).
+Qed.
